@@ -32,6 +32,9 @@ def ops(t):
         'lone-lookup': lambda ts: [R('VFS_LOOKUP', 3, tid=t, ts=ts, data=B.lookup_chunks(6, '/y')[0][0])],
         'dyld-map-b': lambda ts: [R('DYLD_uuid_map_b', 0, (1, 0, 0, 0), t, ts)],
         'mmap': lambda ts: [R('BSC_mmap', 1, (0, 4096, 3, 2), t, ts), R('BSC_mmap', 2, (0, 0x1000, 0, 0), t, ts + 1)],
+        # the thread's own process is renamed by an exec pair emitted by that thread itself
+        'exec-rename': lambda ts: [R('TRACE_DATA_EXEC', 0, (PIDOF[t], 0, 0, 0), t, ts),
+                                   R('TRACE_STRING_EXEC', 0, tid=t, ts=ts + 1, data=(b'Z%d' % t).ljust(32, b'\0'))],
         'image': lambda ts: [R('DYLD_uuid_map_a', 0, (0x11 * t, 0x22, 0x1000 * t, 3), t, ts)],
         'dlopen-500': lambda ts: [R('DBG_DYLD_TIMING_DLOPEN', 1, (0, 500, 1, 0), t, ts), R('DBG_DYLD_TIMING_DLOPEN', 2, (0, 0xbeef, 0, 0), t, ts + 1)],
         'announce-500': lambda ts: [R('TRACE_STRING_GLOBAL', 3, tid=t, ts=ts, data=B.global_string_chunks(0, 500, '/usr/lib/libz')[0][0])],
@@ -39,13 +42,15 @@ def ops(t):
         'name-self': lambda ts: [R('TRACE_STRING_THREADNAME', 0, tid=t, ts=ts, data=b'worker'.ljust(32, b'\0'))],
         'newthread-pair': lambda ts: [R('TRACE_DATA_NEWTHREAD', 0, (7, 70, 0, 0), t, ts), R('TRACE_STRING_NEWTHREAD', 0, tid=t, ts=ts + 1, data=b'kid'.ljust(32, b'\0'))],
         'getpid@7': lambda ts: [R('BSC_getpid', 1, tid=7, ts=ts), R('BSC_getpid', 2, (0, 5, 0, 0), 7, ts + 1)],
+        'read-end-only': lambda ts: [R('BSC_read', 2, (0, 63, 0, 0), t, ts)],       # its START fell before the capture
+        'read-start-only': lambda ts: [R('BSC_read', 1, (3, 0x7000, 64, 0), t, ts)],  # its END falls after the capture
         'sample': lambda ts: [R('PERF_Event', 1, (8, 1, 0, 0), t, ts), R('PERF_STK_UHdr', 0, (1, 2, 0, 0), t, ts + 1),
                               R('PERF_STK_UData', 0, (0x1010, 0x2020, 0, 0), t, ts + 2), R('PERF_Event', 2, (8, 0, 0, 0), t, ts + 3)],
     }
 
 
 OPNAMES = list(ops(1))
-CORE_OPS = ['open+lookup', 'getpid', 'reply_port', 'trace-exec', 'lone-lookup', 'dyld-map-b', 'mmap']
+CORE_OPS = ['open+lookup', 'getpid', 'reply_port', 'trace-exec', 'lone-lookup', 'dyld-map-b', 'mmap', 'exec-rename']
 
 
 def build_stream(opseq):
@@ -70,7 +75,7 @@ def class_lists():
 
 SUBCLASS_LISTS = [(), (0x40c,), (0x40d,)]
 TIDS = [None, 1, 2]
-PROCS = [None, 'A', '20', 'zz']
+PROCS = [None, 'A', '20', 'zz', 'Z1']
 
 
 def configure(f, cfg, as_tuple=False):
@@ -85,6 +90,13 @@ def configure(f, cfg, as_tuple=False):
 def request(f, blob, kind, tc):
     if kind == 'traces':
         return [(t.ktraces[0].tid, t.ktraces[0].eventid, str(t), t.ktraces[0].timestamp) for t in f.traces(io.BytesIO(blob), tc)]
+    if kind == 'traces+process':
+        # unfiltered reference run: each trace with the process (pid, name) its thread has WHEN THE TRACE IS REPORTED
+        out = []
+        for t in f.traces(io.BytesIO(blob), tc):
+            pid = f.threads_pids.get(t.ktraces[0].tid, -1)
+            out.append((t.ktraces[0].tid, t.ktraces[0].eventid, str(t), t.ktraces[0].timestamp, pid, f.pids_names.get(pid, '')))
+        return out
     if kind == 'formatted_traces':
         return list(f.formatted_traces(io.BytesIO(blob), tc))
     return [(c.timestamp, c.tid, tuple(tuple(fr) for fr in c.frames)) for c in f.callstacks(io.BytesIO(blob), tc)]
@@ -105,7 +117,7 @@ def satisfies(trace, cfg):
     tid, proc, cl, sc = cfg
     if tid is not None and ttid != tid:
         return False
-    if proc is not None and proc not in (str(PIDOF[ttid]), NAMEOF[PIDOF[ttid]]):
+    if proc is not None and proc not in (str(trace[4]), trace[5]):
         return False
     if cl or sc:
         if not ((eid >> 24) in cl or (eid >> 16) in sc):
@@ -117,8 +129,8 @@ def judge_commute(opseq, cfg, as_tuple):
     blob = build_stream(opseq)
     f0 = PyKdebugParser()
     configure(f0, (None, None, (), ()))
-    full = request(f0, blob, 'traces', tcodes())
-    exp = [t for t in full if satisfies(t, cfg)]
+    full = request(f0, blob, 'traces+process', tcodes())
+    exp = [t[:4] for t in full if satisfies(t, cfg)]
     f = PyKdebugParser()
     configure(f, cfg, as_tuple)
     try:
@@ -145,6 +157,9 @@ HIST_STREAMS = [
     (('dlopen-500', 1), ('announce-500', 1), ('dlopen-500', 2)),
     (('terminate-self', 1), ('name-self', 1), ('getpid', 1)),
     (('getpid@7', 1), ('newthread-pair', 1), ('getpid@7', 1)),
+    # a dump cut in the middle of operations: begins with an END whose START is missing, ends with a START whose END is missing
+    (('read-end-only', 1), ('getpid', 1), ('read-start-only', 1)),
+    (('read-end-only', 2), ('open+lookup', 1), ('read-start-only', 2), ('read-start-only', 1)),
 ]
 
 
@@ -181,13 +196,13 @@ def judge_history(si, cfg, as_tuple, hist):
 class C13(Check):
     pid = 'C13'
     level = 'model_checking'
-    rule = ('(A) streams: all sequences of <=2 (quick) / <=3 (thorough) complete operations over 7 kinds (BSD syscall with lookup, '
-            'without, second BSD subclass, mach trap, TRACE-class record, stand-alone lookup, DYLD record) x threads {1,2} in a v2 '
-            'dump with a static thread map; x configurations tid {None,1,2} x process {None,name,pid-string,other} x class list '
+    rule = ('(A) streams: all sequences of <=2 (quick) / <=3 (thorough) complete operations over 8 kinds (BSD syscall with lookup, '
+            'without, second BSD subclass, mach trap, TRACE-class record, stand-alone lookup, DYLD record, an exec pair by which a thread renames its own process) x threads {1,2} in a v2 '
+            'dump with a static thread map; x configurations tid {None,1,2} x process {None,name,pid-string,other,the name after the rename} x class list '
             '(all subsets of {1,3,4,7,0x1f} of size <=2) x BSD subclass list {[],[0x40c],[0x40d]} (list-typed; tuple-typed for the '
             'class/subclass dimension). Oracle: filtered traces == unfiltered traces restricted to those whose first event satisfies '
-            'the filter. (B) request histories: all sequences of <=3 requests over {traces, formatted_traces, callstacks} on one '
-            'parser object x 9 streams (incl. samples before/after image announcements, a string id / thread name / new thread used before the record that announces it) x class lists x subclass lists x '
+            'the filter (the process a trace belongs to is the one its thread has when the trace is reported, read from the unfiltered run). (B) request histories: all sequences of <=3 requests over {traces, formatted_traces, callstacks} on one '
+            'parser object x 11 streams (incl. samples before/after image announcements, a string id / thread name / new thread used before the record that announces it, dumps cut in the middle of operations) x class lists x subclass lists x '
             'tid/process {none, set} x {list, tuple}: each request equals the same request on a fresh parser; filter settings equal '
             'and same type afterwards. states = distinct configurations; transitions = requests; non-trivial = a non-empty filter.')
     assumptions = ('streams do not rely on table updates made by records that the filter itself removes (the statement does not say '
